@@ -152,6 +152,9 @@ def check(P, R):
     # a field must not take over bytes of the following part: the delimiter found resets the carried remainder
     from . import c06
     c06.check_eat_data_resets(P, _Sub(R, {}), 'C12.c')
+    # the header / data border of a part does not move when CRLFCRLF is cut by a chunk end (else a delivered value lacks its first bytes)
+    from ..report import Sub as _RSub
+    c06.check_end_headers(P, _RSub(R, default='C12.c', why='a delivered field holds the complete data of its part, never a truncated one'), c06.module_bytes_consts(P))
     c06.check_sentinels(P, _Sub(R, {}), 'C12.c')
 
     # ---- d: progress
